@@ -160,6 +160,36 @@ CHECKS = {
         note=E1 + 'liveness = progress, bound on non-stutter steps, deadlock freedom and termination of every weakly fair execution '
              'of the model (that the runtime scheduler is weakly fair is an assumption); line-level (not bytecode-level) atomicity.',
         ref='§5 C10', engine='E1-detsched+lean'),
+    'C13': dict(
+        technique='Lean 4 proof (inductive counting invariant + decreasing measure over an LTS model of the manager server\'s reference counting) + differential replay of real multi-process histories through the model',
+        text='C13_count_exact (server count = live client proxies + pickles in transit + proxies nested in hosted containers + '
+             'server temporaries), C13_alive / C13_usable (any reference anywhere => hosted, shared memory linked, operations '
+             'enabled), C13_released / C13_released_by_server_alone (no reference => entry and shared memory gone, reached by '
+             'at most refs.length server-internal steps without client action), C13_exit_returns_all / C13_exit_progress hold '
+             'for every action list of the model (any number of clients, any interleaving, any identifier reuse). Tie: random '
+             'histories over 2-8 real processes against a real ServerProcess; after each step debug_info ids/refcounts, '
+             '/dev/shm files and a call through every live proxy are compared with the references that exist (monitor) and '
+             'with Core.run Refcount.step + quiesce (drv refcount).',
+        note='Lean 4 kernel + axioms {propext, Classical.choice, Quot.sound}; model follows the code repaired by fixes/F16 and '
+             'fixes/F21 (the check reports both defects on the pinned tree); OS schedule across processes sampled, not '
+             'controlled; util.Finalize / CPython reference counting / stdlib Server.decref modelled, not verified; killed '
+             'processes and fork/forkserver inheritance outside the model.',
+        ref='§5 C13', engine='E4-manager-processes+lean'),
+    'C14': dict(
+        technique='Lean 4 proof (refinement of the direct semantics by the proxy machinery, generic in the hosted classes) + differential runs of real multi-process/multi-thread histories against local objects and the Lean heap machine',
+        text='C14_refines_direct (for every semantics of the hosted classes and every history of requests from any clients: '
+             'outcomes = direct outcomes in issue order, same heap, connections stay open), C14_linearizable (every '
+             'interleaving of concurrent clients = a sequential run in method-execution order, replies to their own callers in order), C14_error_transparent, '
+             'C14_managed_alias, C14_unhosted_remoteError. Tie: random histories of list/dict/Namespace/Value/custom-class '
+             'operations with arbitrary picklable arguments, raising operations, managed() views, proxies used inside the '
+             'server and concurrent batches, issued through proxies in 2-3 processes and extra threads against a real '
+             'ServerProcess; every outcome and the final objects are compared with the same calls on local objects (monitor) '
+             'and with proxyStep pySem (drv proxycall).',
+        note='Lean 4 kernel + axioms {propext, Classical.choice, Quot.sound}; the refinement theorem is thin by design (the '
+             'mechanism is thin): the weight is on the differential tie; model follows the code repaired by fixes/F22 and '
+             'fixes/F23 (both reported on the pinned tree); hosted methods assumed atomic; OS schedule sampled; exception '
+             'messages compared against the local call only.',
+        ref='§5 C14', engine='E4-manager-processes+lean'),
 }
 
 CHECKS['C06'] = dict(
@@ -223,6 +253,10 @@ def main():
             dict(name='E4-processes', path='harness/core.py',
                  serves_properties=[p for p in sorted(CHECKS) if 'E4' in CHECKS[p]['engine']],
                  kind_free_text='real OS processes (own session per case, group killed afterwards, explicit hang bounds); OS schedule sampled, history replayed through the model'),
+            dict(name='lean', path='lean/', serves_properties=sorted(CHECKS), kind_free_text='Lean 4 models, theorems, compiled trace-validation driver (drv)'),
+            dict(name='E1-detsched', path='harness/detsched.py', serves_properties=[p for p in sorted(CHECKS)],
+                 kind_free_text='deterministic cooperative scheduler for real Python threads + virtual clock'),
+            dict(name='E4-manager-processes', path='harness/e4_mgr.py', serves_properties=['C13', 'C14'], kind_free_text='real ServerProcess + client processes driven through command pipes, one fresh interpreter/session per case'),
         ],
         checks=checks,
         notes='See DESIGN.md. KNOWN_FINDINGS.txt lists known: and fixed: entries.',
